@@ -14,6 +14,24 @@ pub const HOSTILE: [&str; 40] = [
     "$a(", "${a", "[", "]", "é", "İstanbul", "😀", "a b", "a\nb", "#", "{*}", "\\",
 ];
 
+/// nesting constructs for the depth ladder
+pub const DEEP: [&str; 9] = ["open-bracket", "bracket", "quoted-bracket", "brace", "open-brace", "paren", "open-paren", "array-index", "unary"];
+
+/// the text for a (construct, depth) pair; twin of coq/Check/C01.v deep_text
+pub fn deep_text(which: &str, d: usize) -> (String, &'static str) {
+    match which {
+        "open-bracket" => (format!("rec {}", "[".repeat(d)), "eval"),
+        "bracket" => (format!("rec {}rec x{}", "[rec ".repeat(d), "]".repeat(d)), "eval"),
+        "quoted-bracket" => (format!("rec {}x{}", "\"[rec ".repeat(d), "]\"".repeat(d)), "eval"),
+        "brace" => (format!("rec {}x{}", "{".repeat(d), "}".repeat(d)), "eval"),
+        "open-brace" => (format!("llength {{{}}}", "{".repeat(d)), "eval"),
+        "paren" => (format!("{}1{}", "(".repeat(d), ")".repeat(d)), "expr"),
+        "open-paren" => ("(".repeat(d), "expr"),
+        "array-index" => (format!("rec {}1{}", "$b(".repeat(d), ")".repeat(d)), "eval"),
+        _ => (format!("{}1", "-".repeat(d)), "expr"),
+    }
+}
+
 /// entry points: (kind, text)
 pub fn entry(kind: &str, text: &str) -> Term {
     tl(vec![ts(kind), ts(text)])
@@ -81,6 +99,40 @@ pub fn gen(tier: &str, seed: u64) -> Gen {
         }
     }
     fams.push(("built-in commands and subcommands with hostile argument vectors".to_string(), k, false));
+    // deeply nested input: every nesting construct of the grammar at a ladder of depths
+    // (the model's script reader is quadratic in the depth, so bracket nests stop earlier)
+    let mut dn = 0;
+    let mut all_depths: Vec<i64> = Vec::new();
+    for which in DEEP.iter() {
+        let brackets = which.contains("bracket");
+        let depths: Vec<i64> = match (thorough, brackets) {
+            (false, true) => vec![10, 100, 1000, 10_000],
+            (true, true) => vec![10, 100, 1000, 3000, 10_000, 30_000],
+            (false, false) => vec![10, 100, 1000, 10_000, 100_000],
+            (true, false) => vec![10, 100, 1000, 3000, 10_000, 30_000, 100_000, 200_000],
+        };
+        for &d in &depths {
+            cases.push(tl(vec![ts("deep"), ts(which), ti(d)]));
+            dn += 1;
+            if !all_depths.contains(&d) { all_depths.push(d); }
+        }
+    }
+    fams.push((format!("deep nesting: {} constructs x depths {:?} (bracket nests to 10000 / 30000)", DEEP.len(), all_depths), dn, true));
+    // histories: earlier scripts (failing ones included) then a hostile call on the same interpreter
+    let hist_pool = [
+        "proc f {} {f}; catch {f}", "catch {if 1 \"set x \\{\"}", "set errorInfo(x) 1", "unset -nocomplain errorInfo", "rename set _s; rename _s set",
+        "proc p {a b} {}; catch {p 1}", "array set a {1 2 3 4}", "catch {return -code 9 -level 5 x}", "set a(1) 2", "proc if {args} {return no}",
+        "rename expr {}", "proc unknown {args} {return u}", "catch {error e}", "global g", "set b 2; unset b",
+    ];
+    let hn = if thorough { 20_000 } else { 600 };
+    for _ in 0..hn {
+        let k = 1 + rng.below(3);
+        let mut scripts: Vec<Term> = (0..k).map(|_| ts(hist_pool[rng.below(hist_pool.len())])).collect();
+        scripts.push(ts(HOSTILE[rng.below(HOSTILE.len())]));
+        let kind = ["eval", "expr"][rng.below(2)];
+        cases.push(tl(vec![ts("hist"), ts(kind), tl(scripts)]));
+    }
+    fams.push(("1-3 earlier scripts from a pool of 15 state-changing or failing ones, then a hostile eval/expr".to_string(), hn, false));
     (cases, fams)
 }
 
@@ -102,7 +154,26 @@ pub fn run(case: &Term) -> Term {
         let r = interp.eval_value(&script);
         return obs_result(&r);
     }
-    let text = case.nth(1).as_str().to_string();
+    if kind == "hist" {
+        let (mut interp, _) = harness_interp(0);
+        let _ = interp.eval("set a 1; set b(1) x");
+        let scripts = case.nth(2).strs();
+        let mut last = tag("none", vec![]);
+        for (i, s) in scripts.iter().enumerate() {
+            last = if i + 1 == scripts.len() && case.nth(1).as_str() == "expr" {
+                obs_result(&interp.expr(&Value::from(s.as_str())))
+            } else {
+                obs_result(&interp.eval(s))
+            };
+        }
+        return last;
+    }
+    let (text, kind) = if kind == "deep" {
+        let (t, k) = deep_text(case.nth(1).as_str(), case.nth(2).as_int() as usize);
+        (t, k.to_string())
+    } else {
+        (case.nth(1).as_str().to_string(), kind)
+    };
     let (mut interp, _) = harness_interp(0);
     let _ = interp.eval("set a 1; set b(1) x");
     match kind.as_str() {
